@@ -72,6 +72,30 @@ Theorem C05_error_close_frame : forall c reading e text fc key dict bytes rest,
   gen_frame utf8_valid deflate_raw c 8 [error_close_body reading e text] fc key dict = GFrame bytes ->
   exists f, decode_frame (bytes ++ rest) = DFrame f true rest /\ outbound_wf (w_server c) f true = true /\ f_op f = 8.
 Proof. exact (error_close_frame_wf utf8_valid deflate_raw deflate_wf deflate_small). Qed.
+
+(* Tie to the source: genFrame and doWrite of the model, written with the conditions regenerated from writer.go on every
+   run (text gate, write limit, compress decision; closed test for non-Close opcodes; window updated iff the frame that
+   went out is compressed) *)
+Theorem C05_gen_frame_from_source : forall c op slices fc key dict,
+  let payload := concat slices in
+  let n := Z.of_nat (length payload) in
+  gen_frame utf8_valid deflate_raw c op slices fc key dict
+  = if gf_gws_Conn_genFrame_cond1 (payload_check utf8_valid (fc_check fc) op slices) (Z.of_N op) then GErrEncoding
+    else if gf_gws_Conn_genFrame_cond2 (w_wlimit c) n then GErrTooLarge
+    else if gf_gws_Conn_genFrame_cond3 (w_threshold c) (fc_compress fc) n (Z.of_N op) then compress_data deflate_raw c op payload fc key dict
+    else backfill (w_server c) (generate_header (w_server c) (fc_fin fc) false op n key) key (repeat 0%N header_size ++ payload).
+Proof. exact (gen_frame_from_source utf8_valid deflate_raw unit (fun w _ => w)). Qed.
+
+Theorem C05_do_write_from_source : forall (W : Type) (wdict : W -> list N) (wwrite : W -> list N -> W) c closed w op slices key,
+  do_write utf8_valid deflate_raw W wdict wwrite c closed w op slices key
+  = if gf_gws_Conn_doWrite_cond1 closed (Z.of_N op) then (None, w, WErrClosed) else
+    match gen_frame utf8_valid deflate_raw c op slices {| fc_fin := true; fc_compress := w_pmd c; fc_broadcast := false; fc_check := w_utf8 c |} key (wdict w) with
+    | GFrame fr => (Some fr, (if gf_gws_Conn_doWrite_cond3 (is_compressed_frame fr) then fold_left wwrite slices w else w), WOk)
+    | GErrEncoding => (None, w, WErrEncoding)
+    | GErrTooLarge => (None, w, WErrTooLarge)
+    | GPanic => (None, w, WPanic)
+    end.
+Proof. exact (do_write_from_source utf8_valid deflate_raw). Qed.
 End C05.
 
 (* streamed sends (WriteFile without compression): for EVERY sequence of reader results the frames are the RFC
@@ -166,3 +190,5 @@ Print Assumptions C05_stream_compressed.
 Print Assumptions C05_spec_roundtrip.
 Print Assumptions C05_header_writer_from_source.
 Print Assumptions C05_gates_from_source.
+Print Assumptions C05_gen_frame_from_source.
+Print Assumptions C05_do_write_from_source.
